@@ -103,14 +103,9 @@ def step (line : String) : String :=
     match textOfHex h with
     | some name =>
       let a := name.all printable
-      let b := decide (dataLine (nameTail name) ≠ .raises)
       let c := decide (searchRe reStatv (nameTail name) = none)
       let d := !hasSub t!"Starting spa connection handshake..." (nameTail name)
-      s!"safe:{if decide (SafeName name) then 1 else 0} printable:{a} block:{b} statv:{c} conn:{d}"
-    | none => "bad-op"
-  | ["quotesafe", h] =>
-    match unhex h with
-    | some bs => if bs.contains 0x27 && bs.contains 0x22 then "0" else "1"
+      s!"safe:{if decide (SafeName name) then 1 else 0} printable:{a} statv:{c} conn:{d}"
     | none => "bad-op"
   | _ => "bad-op"
 
